@@ -2,7 +2,7 @@
    Only statements closed by [exact]; proofs live in C16/. *)
 From Coq Require Import ZArith List Permutation Ring.
 From PV Require Import Comb.FockModel Comb.FockProofs C16.IndexModel C16.IndexProofs
-  C16.SimlProofs C16.GateSem C16.ExecModel C16.ExecProofs.
+  C16.SimlProofs C16.GateSem C16.ApplyProofs C16.ExecModel C16.ExecProofs.
 Import ListNotations.
 Open Scope Z_scope.
 
@@ -65,6 +65,23 @@ Theorem C16_apply_equivariant :
     = gate_apply A a0 aadd amul (old_modes p ms') T psi v.
 Proof. exact gate_apply_equivariant. Qed.
 Print Assumptions C16_apply_equivariant.
+
+(* the link between 1 and 2: the list-level application through the index list (model of
+   _calculate_state_vector_after_interferometer: new[indices] = T_n @ state[indices]) computes
+   the vector-level semantics, for modes in any order, any state vector and any family of
+   sector matrices with the right number of rows *)
+Theorem C16_apply_index_list_is_gate_apply :
+  forall (A : Type) (a0 a1 : A) (aadd amul asub : A -> A -> A) (aopp : A -> A),
+  ring_theory a0 a1 aadd amul asub aopp eq ->
+  forall d ms c, modes_ok d ms ->
+  forall (Ts : list (list (list A))) (st : list A),
+  length st = length (basis d c) -> length Ts = c ->
+  (forall n, (n < c)%nat -> length (nth n Ts []) = length (sector (length ms) n)) ->
+  forall v, In v (basis d c) ->
+  nth (Z.to_nat (fock_index v)) (apply_index_list A a0 aadd amul (index_list ms d c) Ts st) a0
+  = gate_apply A a0 aadd amul ms (sem_T A a0 (length ms) Ts) (sem_psi A a0 st) v.
+Proof. exact apply_index_list_sem. Qed.
+Print Assumptions C16_apply_index_list_is_gate_apply.
 
 (* ---- 3. Gaussian mean vector / passive interferometer: x[ms] := M x[ms] ---- *)
 Theorem C16_gauss_passive_disjoint_commute :
